@@ -74,7 +74,26 @@ fn ser_val_words(ty: &str, v: &[&str]) -> (Vec<u64>, usize) {
     }
 }
 
+/// a reader that hands out at most 3 bytes per `read()` call (pipes, decompressors and small `BufReader`s do the same):
+/// `load` must consume exactly the structure whatever the chunking
+struct Chunky<'a> { data: &'a [u8], pos: usize }
+impl<'a> io::Read for Chunky<'a> {
+    fn read(&mut self, buf: &mut [u8]) -> io::Result<usize> {
+        let n = std::cmp::min(std::cmp::min(3, buf.len()), self.data.len() - self.pos);
+        buf[..n].copy_from_slice(&self.data[self.pos..self.pos + n]);
+        self.pos += n;
+        Ok(n)
+    }
+}
+
 fn load_report<T: Serialize>(bytes: &[u8]) -> Result<(T, usize), String> {
+    if bytes.len() <= (1 << 16) {
+        let mut cur = Chunky { data: bytes, pos: 0 };
+        return match T::load(&mut cur) {
+            Ok(x) => Ok((x, bytes.len() - cur.pos)),
+            Err(e) => Err(io_err(&e)),
+        };
+    }
     let mut cur = io::Cursor::new(bytes);
     match T::load(&mut cur) {
         Ok(x) => Ok((x, bytes.len() - cur.position() as usize)),
